@@ -38,6 +38,13 @@ def sig_src(name, sg, tag, env, method, deco=''):
         env[f'{tag}_p{j}'] = U.render_ann(a)
         ps.append(f'p{j}: {tag}_p{j}')
     env[f'{tag}_r'] = U.render_ann(sg['ret'])
+    # variadic parameters (pedantic recognises `*args` by that very text in the source)
+    if sg.get('varargs') is not None:
+        env[f'{tag}_va'] = U.render_ann(sg['varargs'])
+        ps.append(f'*args: {tag}_va')
+    if sg.get('varkw') is not None:
+        env[f'{tag}_vk'] = U.render_ann(sg['varkw'])
+        ps.append(f'**kwargs: {tag}_vk')
     head = ', '.join((['self'] if method else []) + ps)
     ind = '    ' if method else ''
     body = 'pass' if name == '__init__' else 'return RET[0]'
@@ -82,11 +89,27 @@ def build(world, ctx):
     for f, sg in enumerate(world['funs']):
         src.append(sig_src(f'f{f}', sg, f'A_f{f}', env, False, '@pedantic\n'))
     src.append('def call(fn, kw):\n    return fn(**kw)\n')
+    src.append('def callv(fn, pos, kw):\n    return fn(*pos, **kw)\n')
     return make_module('\n'.join(src), env), env
 
 
 def reify_sig(env, tag, sg):
-    return {'params': [U.reify_ann(env[f'{tag}_p{j}']) for j in range(len(sg['params']))], 'ret': U.reify_ann(env[f'{tag}_r'])}
+    r = {'params': [U.reify_ann(env[f'{tag}_p{j}']) for j in range(len(sg['params']))], 'ret': U.reify_ann(env[f'{tag}_r'])}
+    if sg.get('varargs') is not None:
+        r['varargs'] = U.reify_ann(env[f'{tag}_va'])
+    if sg.get('varkw') is not None:
+        r['varkw'] = U.reify_ann(env[f'{tag}_vk'])
+    return r
+
+
+def invoke(mod, fn, sg, real, extra, surplus):
+    """named parameters by keyword - unless the function collects positional values: then Python wants the named
+    ones positionally, before the collected ones; surplus keyword values as k0=, k1=, ..."""
+    kw = {f'k{j}': v for j, v in enumerate(surplus)}
+    if sg.get('varargs') is not None:
+        return mod.callv(fn, list(real) + list(extra), kw)
+    kw.update({f'p{j}': v for j, v in enumerate(real)})
+    return mod.call(fn, kw)
 
 
 def run_case(c):
@@ -135,15 +158,18 @@ def run_case(c):
             out.append(code); excs.append(msg)
             r_steps.append(['new', slot, k, r_xs, rv])
         elif s[0] == 'call':
-            _, slot, m, args, ret = s
+            _, slot, m, args, ret = s[:5]
             real, rv = vals(args)
             (rreal,), (rret,) = vals([ret])
-            r_steps.append(['call', slot, m, rv, rret])
+            ereal, erv = vals(s[5] if len(s) > 5 else [])
+            kreal, krv = vals(s[6] if len(s) > 6 else [])
+            r_steps.append(['call', slot, m, rv, rret, erv, krv])
             if slot not in slots or m >= len(world['classes'][slots[slot][0]]['methods']):
                 out.append(9); excs.append(None); continue
             mod.RET[0] = rreal
             fn = getattr(slots[slot][1], f'm{m}')
-            code, _, msg = attempt(lambda: mod.call(fn, {f'p{j}': v for j, v in enumerate(real)}))
+            msg_sg = world['classes'][slots[slot][0]]['methods'][m]
+            code, _, msg = attempt(lambda: invoke(mod, fn, msg_sg, real, ereal, kreal))
             out.append(code); excs.append(msg)
         elif s[0] == 'fun' and len(s) > 4 and s[4]:
             # re-entrancy: the body of f calls f again (depth-first plan); flat result: inner calls first, the outer call last
@@ -174,11 +200,13 @@ def run_case(c):
             _, f, args, ret = s[:4]
             real, rv = vals(args)
             (rreal,), (rret,) = vals([ret])
-            r_steps.append(['fun', f, rv, rret])
+            ereal, erv = vals(s[5] if len(s) > 5 else [])
+            kreal, krv = vals(s[6] if len(s) > 6 else [])
+            r_steps.append(['fun', f, rv, rret, [], erv, krv])
             if f >= len(world['funs']):
                 out.append(9); excs.append(None); continue
             mod.RET[0] = rreal
-            code, _, msg = attempt(lambda: mod.call(getattr(mod, f'f{f}'), {f'p{j}': v for j, v in enumerate(real)}))
+            code, _, msg = attempt(lambda: invoke(mod, getattr(mod, f'f{f}'), world['funs'][f], real, ereal, kreal))
             out.append(code); excs.append(msg)
         else:
             raise ValueError(s)
